@@ -11,14 +11,14 @@ import (
 
 func init() {
 	register("C27", func(r *Report) {
-		r.Explanation = "Decides that only matching filters' callbacks run relative to the matcher, that unsubscribe removes exactly what subscribe stored, and one full recursion step of the matcher: (R1) the callback handed to the delivery goroutine is taken from a stored handler only under match(<that handler's route>, split(<this PUBLISH's resolved topic>)) == true; QoS 0/1 messages are delivered in the PUBLISH case, QoS 2 messages only by the PUBREL handler with the PUBLISH stored by the same transaction; (R2) the route stored on SUBACK and deleted on UNSUBACK are keyed by the same function of the route, join is strings.Join(route, \"/\") and split is strings.Split(topic, \"/\") (mutual inverses on routes), and both handlers pass strings.Split(name, \"/\"); (R3) on UNSUBACK the delete precedes Success on every path and depends only on name resolution; (R4) the matcher, explored over all valuations of (route empty, topic empty, first route level is '#', is '+', equals the first topic level), returns exactly the MQTT rule for one level and recurses on both tails otherwise - by structural induction on the route this is the MQTT matching relation for '/', '+' and '#'. Not decided: UTF-8 details of topic names."
+		r.Explanation = "Decides that only matching filters' callbacks run relative to the matcher, that unsubscribe removes exactly what subscribe stored, and one full recursion step of the matcher: (R1) the callback handed to the delivery goroutine is taken from a stored handler only under match(<that handler's route>, split(<this PUBLISH's resolved topic>)) == true; QoS 0/1 messages are delivered in the PUBLISH case, QoS 2 messages only by the PUBREL handler with the PUBLISH stored by the same transaction; (R2) the route stored on SUBACK and deleted on UNSUBACK are keyed by the same function of the route, join is strings.Join(route, \"/\") and split is strings.Split(topic, \"/\") (mutual inverses on routes), and both handlers pass strings.Split(name, \"/\"); (R3) on UNSUBACK the delete precedes Success on every path and depends only on name resolution, and the store/delete helpers reach the map's Store/Delete on every path (no reference counting: one filter is one subscription); (R4) the matcher, explored over all valuations of (route empty, topic empty, first route level is '#', is '+', equals the first topic level), returns exactly the MQTT rule for one level and recurses on both tails otherwise - by structural induction on the route this is the MQTT matching relation for '/', '+' and '#'. Not decided: UTF-8 details of topic names."
 		r.floor("R1", 3)
 		r.floor("R2", 4)
 		r.floor("R3", 1)
 		r.floor("R4", 10)
 	}, checkC27)
 	register("C28", func(r *Report) {
-		r.Explanation = "Decides absence of an unconditional wait, for all gateway behaviours: (R1) every blocking select, receive and send in package client has a case on the awaited transaction's Done() and/or on a context derived from the client's context; (R2) every function that arms or re-arms the sleep transaction's timers ends, on every non-failing path, with a timer armed or the transaction completed, and all other awaited transactions are built on NewRetryTransaction / NewTimedTransaction (self-terminating, C19); (R3) in every API method a failed send completes the transaction (or returns) before the wait; (R4) Close cancels the context on every path; (R5) no function of package client returns with a mutex still held; (R6) a completion callback frees the store slot the transaction occupies (a stale entry swallows the gateway's DISCONNECT); (R7) lock discipline in packages client, transactions and util: nothing waits (select, channel operation, Wait, or a call that may do one) while a mutex is certainly held, and no call made under a lock reaches a function that acquires the same (non-reentrant) lock. (R8) every goroutine of the client's errgroup observes the group's context (not its parent), so a failing member stops the others and Wait returns. Not decided: the numeric bound; user callbacks."
+		r.Explanation = "Decides absence of an unconditional wait, for all gateway behaviours: (R1) every blocking select, receive and send in package client has a case on the awaited transaction's Done() and/or on a context derived from the client's context; (R2) every function that arms or re-arms the sleep transaction's timers ends, on every non-failing path, with a timer armed or the transaction completed, and all other awaited transactions are built on NewRetryTransaction / NewTimedTransaction (self-terminating, C19); (R3) in every API method a failed send completes the transaction (or returns) before the wait; (R4) Close cancels the context on every path; (R5) no function of package client returns with a mutex still held; (R6) a completion callback frees the store slot the transaction occupies (a stale entry swallows the gateway's DISCONNECT); (R7) lock discipline in packages client, transactions and util: nothing waits (select, channel operation, Wait, or a call that may do one) while a mutex is certainly held, and no call made under a lock reaches a function that acquires the same (non-reentrant) lock. (R8) every goroutine of the client's errgroup observes the group's context (not its parent), so a failing member stops the others and Wait returns; (R9) no packet from the gateway rewinds a retry budget: each step's Proceed is reachable only in the state awaiting that packet, a repeated PUBREC/PUBACK/... is ignored (C17-R1, re-run here). Not decided: the numeric bound; user callbacks."
 		r.floor("R1", 8)
 		r.floor("R3", 4)
 		r.floor("R4", 1)
@@ -26,6 +26,7 @@ func init() {
 		r.floor("R7", 2)
 		r.floor("R8", 2)
 		r.floor("R6", 8)
+		r.floor("R9", 6)
 	}, checkC28)
 	register("C33", func(r *Report) {
 		r.Explanation = "Decides gating and routing structure: (R1) in the keep-alive loop the ticker is created stopped, is stopped on every state notification and re-armed only on the edge 'received state == Active'; a tick calls the ping routine; (R2) every write of the client's state goes through the wrapper that notifies the loop when the state changed; (R3) every (re)transmission of a keep-alive PINGREQ - including the ping transaction's retry callback - is dominated by a test that the state is Active; (R4) a PINGRESP is routed to the transaction that asked for it: with a keep-alive ping and a sleep transaction both pending, the dispatcher must be able to tell them apart. R3 and R4 are known findings today. (R5) the channel on which the receive loop announces state changes has capacity >= 1 as long as the keep-alive loop may wait, inside its tick case, for a packet only the receive loop can deliver (otherwise the two wait for each other); (R6) typestate of the sleep transaction: the state in which its PINGRESP / DISCONNECT handler accepts the reply is entered only by a step that sends the PINGREQ / DISCONNECT the reply answers, so a reply of another exchange is never taken for it. Not decided: 'at least once per KeepAlive period' (timing), starvation of the capacity-1 notification channel."
@@ -533,6 +534,33 @@ func (c *Ctx) checkRouteKeys(r *Report) {
 		}
 		r.cond(ki == "strings.Join" && ssep == "/", "R2", "handler-map:key-is-strings.Join", p, "key = strings.Join(route, \"/\") (injective on routes produced by strings.Split(name, \"/\"))", "the handler-map key is not strings.Join(route, \"/\"): different filters (e.g. with empty levels) can collapse to one key and overwrite / delete each other")
 	}
+	// the helpers do what they are named after on every path: one filter is one subscription, however often it was
+	// subscribed - a repeated SUBSCRIBE replaces the handler, one successful UNSUBSCRIBE removes it
+	for _, hp := range []struct {
+		f    *ssa.Function
+		call string
+		what string
+	}{{storeFn, "(*sync.Map).Store", "stores the handler"}, {deleteFn, "(*sync.Map).Delete", "removes the handler"}} {
+		var site ssa.Instruction
+		allInstrs(hp.f, func(i ssa.Instruction) {
+			if ci, ok := i.(ssa.CallInstruction); ok && calleeName(ci.Common()) == hp.call {
+				site = i
+			}
+		})
+		key := fnKey(hp.f) + ":unconditional"
+		if site == nil {
+			continue
+		}
+		skip, at := pathExists(hp.f, nil, func(x ssa.Instruction) bool { _, ok := x.(*ssa.Return); return ok }, func(x ssa.Instruction) bool {
+			ci, ok := x.(ssa.CallInstruction)
+			return ok && calleeName(ci.Common()) == hp.call
+		})
+		p := c.instrPos(site)
+		if skip && at != nil {
+			p = c.instrPos(at)
+		}
+		r.cond(!skip, "R3", key, p, "every path through the helper "+hp.what, "a path through the helper returns without "+hp.call+": "+map[bool]string{true: "a successful Unsubscribe leaves the filter's callback installed (e.g. when the filter was subscribed more than once) and later matching messages still invoke it", false: "a successful Subscribe does not install the callback"}[hp.f == deleteFn])
+	}
 	// stored handler keeps the same route it is keyed by
 	routeStored := false
 	allInstrs(storeFn, func(i ssa.Instruction) {
@@ -596,6 +624,10 @@ func (c *Ctx) checkRouteKeys(r *Report) {
 // C28
 
 func checkC28(c *Ctx, r *Report) {
+	// R9: the bound is (RetryCount+1) x RetryDelay per step only if the gateway cannot rewind a step's budget: Proceed
+	// (which resets the retry counter) is reached only from the state that awaits this very packet, so a repeated
+	// acknowledgement is ignored (C17-R1's per-state exploration of the client dispatcher, re-run here)
+	importRulesF(c, r, "C17", map[string]string{"R1": "R9"}, nil)
 	c.checkCancellation(r, []string{"client"})
 	// rename rule ids: checkCancellation reports under R2; map to R1 for C28
 	for _, o := range r.Obls {
